@@ -108,6 +108,14 @@ CHECKS = {
         note="Trusted: the scripted connection mirrors websockets' contract; a second connection_ack is treated as outside the statement.",
         design="4/C13",
     ),
+    "C16": dict(
+        category="exploration",
+        technique="runtime monitoring: the module emitted by the real graphqlschema run is executed in a fresh fork (the .graphql/.gql file parsed back) and the resulting schema object compared with graphql-core's reading of the source, by print_schema and by a structural fact dump",
+        text="Seeded schemas with descriptions, deprecations, custom/repeatable directives, specifiedBy, custom roots, schema description and defaults of every kind are run "
+             "through the real `graphqlschema` strategy for all target formats and variable names; the produced schema must print identically and agree on every listed "
+             "structural fact (kinds, interfaces, fields, args, defaults, descriptions, deprecations, enum values, union members, directive locations/repeatability, roots).",
+        note="Trusted: graphql-core build_schema / print_schema as the reference reading of SDL.",
+        design="4/C16"),
 }
 
 NOT_APPLICABLE = []
